@@ -117,11 +117,15 @@ def _cases_for(tier, salt):
     if salt == 0:
         q = tier == "quick"
         for (n, p) in ([(9, 4)] if q else _shapes(tier)):
-            for units in ("1e-5", "1e-3", "1e4", "mixed"):
+            for units in ("1e-5", "1e-3", "1e4", "mixed", "int"):
                 for cond in ([1e1, 1e6] if q else conds):
                     if units == "mixed" and cond != 1e1:
                         continue  # per-feature units multiply the condition number by up to 1e5
+                    if units == "int" and cond != 1e1:
+                        continue  # integer storage: the rounded matrix has its own (measured) condition number
                     for cplx in (False, True):
+                        if units == "int" and cplx:
+                            continue
                         for alpha in _alphas(tier):
                             for (be, sch) in (_backends(tier)[:2] if q else _backends(tier)):
                                 out.append(dict(model="Whitener", salt=salt, shape=[n, p], cond=cond, cplx=cplx, alpha=alpha, backend=be, schunks=sch, units=units))
@@ -216,7 +220,15 @@ def _run_whitener(case, seed):
     cond, cplx, alpha = case["cond"], case["cplx"], case["alpha"]
     units = case.get("units", "1")
     X0, s = make_X(n, p, cond, cplx, seed, case["salt"])
-    X = X0 * _unit_factors(units, p)[None, :]
+    store = None
+    if units == "int":
+        # the SAME numbers held in integer storage: an exactly centred integer-valued matrix (counts, packed data); every
+        # data array handed to xeofs is int64, the reference works on the float64 copy of those numbers
+        X = np.rint(X0 * (40.0 / np.abs(X0).max()))
+        X[-1] = -X[:-1].sum(axis=0)
+        store = np.int64
+    else:
+        X = X0 * _unit_factors(units, p)[None, :]
     if units != "1":
         sv = np.linalg.svd(X, compute_uv=False)
         cond = float(sv[0] / sv[-1])  # the condition number of what xeofs is given
@@ -224,7 +236,7 @@ def _run_whitener(case, seed):
     sl = np.arange(n)
     nl = np.arange(N_NEW) + 100
     ml = np.arange(1, M_PAT + 1)
-    da = _wrap(_da(X, "sample", sl, "feature", fl, "data"), case)
+    da = _wrap(_da(X if store is None else X.astype(store), "sample", sl, "feature", fl, "data"), case)
     feats = dict(backend=case["backend"], cplx=cplx, alpha=_alpha_class(alpha), units=units)
     V = []
 
@@ -292,8 +304,10 @@ def _run_whitener(case, seed):
     if not e <= tol_inv:
         bad("data_roundtrip", "inverse_transform_data(transform(X)) != X on the training data: rel.err %.3e (tol %.1e)" % (e, tol_inv), which="train")
     Z = _rand(rng, (N_NEW, p), cplx)
+    if store is not None:
+        Z = np.rint(Z * 30.0)
     refZ = {"sample": nl, "feature": fl}
-    Zda = _wrap(_da(Z, "sample", nl, "feature", fl, "new"), case)
+    Zda = _wrap(_da(Z if store is None else Z.astype(store), "sample", nl, "feature", fl, "new"), case)
     Zb = _mat(W.inverse_transform_data(W.transform(Zda)), ["sample"], ["feature"], refZ)
     e = _rel(Zb, Z, np.abs(Z).max())
     worst["rt_new"] = e / tol_inv
@@ -327,7 +341,13 @@ def _run_whitener(case, seed):
     # ---- (f) one change of basis for data and patterns: transform(S P^H) = S transform_components(P)^H, same for the inverses
     S = _rand(rng, (N_NEW, M_PAT), cplx)
     F = S @ P.conj().T
-    Fda = _wrap(_da(F, "sample", nl, "feature", fl, "field"), case)
+    if store is not None:  # an integer-valued field S P^H: integer S and P
+        S, P2 = np.rint(S * 5.0), np.rint(P * 5.0)
+        F = S @ P2.T
+        Qm = _mat(W.transform_components(_da(P2, "feature", fl, "mode", ml, "components")), ["feature"], ["mode"], refP)
+        Qim = _mat(W.inverse_transform_components(_da(P2, "feature", fl, "mode", ml, "components")), ["feature"], ["mode"], refP)
+        P = P2
+    Fda = _wrap(_da(F if store is None else F.astype(store), "sample", nl, "feature", fl, "field"), case)
     sS, sP = np.linalg.norm(S, 2), np.linalg.norm(P, 2)
     lhs = _mat(W.transform(Fda), ["sample"], ["feature"], refZ)
     e = _rel(lhs, S @ Qm.conj().T, sS * sP * np.linalg.norm(T, 2))
